@@ -12,3 +12,14 @@ let () =
           if !bad = None && e.proj_same = "0" then
             bad := Some (Printf.sprintf "op%d:result_depends_on_activity_in_another_name_space:%s_vs_%s" e.k e.res e.proj_res)) es;
       !bad)
+
+(* clone_race id <k> <rounds> <clones returned> <clones that differ> <detail>  (harness/cmd/run/c07.go):
+   Clone of the root raced with the first execution of a member of the parent; a clone that was
+   returned must execute every member exactly as a fresh set with the same definitions does
+   (implementation against implementation, no model involved). *)
+let () =
+  reg "clone_race" (fun f ->
+      let id = f.(1) in
+      if f.(5) <> "0" then
+        specfail id ("clone_taken_during_a_first_execution_differs_from_a_fresh_set: " ^ string_of_bytes (bytes_of_hex f.(6)))
+      else ok id (if f.(4) = "0" then "no_clone_returned" else "+clone_during_first_execution_is_faithful"))
